@@ -27,6 +27,7 @@ pub fn service(peers: &[String], peer: &str, svc: &str, func: &str, args: &[Valu
             CallServiceResult::ok(&json!({"peer": pick(0), "peers": ps, "arr": [h % 5, 10 + h % 7, "s"], "n": h % 4, "s": format!("s{}", h % 3),
                                            "nested": {"a": [1, h % 9]}, "idx": h % 2}))
         }
+        "arrempty" => CallServiceResult::ok(&json!([])),
         "arr" => { let n = (h % 4) as usize; let v: Vec<Value> = (0..n).map(|i| json!(format!("e{}_{}", h % 100, i))).collect(); CallServiceResult::ok(&json!(v)) }
         "str" => CallServiceResult::ok(&json!(format!("str{}", h % 5))),
         "num" => CallServiceResult::ok(&json!(h % 6)),
